@@ -15,7 +15,9 @@
 // selected(row) <=> user_selects(row) AND start <= row.time < stop; (3) fields, sources,
 // group-by (as written in .groupBy(), offset aligned under .alignGroup()), fill and the
 // ORDER/LIMIT/tz tail are the user's; (4) the queries of a list do not share state;
-// (5) a query naming an undeclared db/rp is rejected.
+// (5) a query naming an undeclared db/rp is rejected, and so is one that names a database
+// but omits the retention policy ("db"..m reads the database's default retention policy,
+// which no declaration covers).
 //
 // Unit Live (live_test.go): StartBatching against a fake InfluxDB; every observed live query
 // must be exactly the query BatchQueries returns for the same tick.
@@ -811,26 +813,46 @@ func (c Case) declared() []kapacitor.DBRP {
 	return out
 }
 
-// sourcesVerdict: +1 every source is a declared (db, rp) pair; -1 some fully qualified source
-// is not declared; 0 a partially qualified source decides (left open: accept both).
-func (c Case) sourcesVerdict() int {
+// sourcesVerdict: +1 every source is a declared (db, rp) pair; -1 some source reads from a
+// pair the task did not declare: a fully qualified source that is not declared ("undeclared"),
+// or a source that names the database but omits the retention policy, "db"..m ("omitted-rp":
+// InfluxDB answers it from the DEFAULT retention policy of db, which Kapacitor does not know
+// and which in this harness is never a declared one - the fake InfluxDB knows no retention
+// policies at all; the pair such a source stands for, (db, ""), is never declared by the
+// generator); 0 an unqualified source (m: no database at all) decides - left open: accept both.
+func (c Case) sourcesVerdict() (int, string) {
 	decl := map[DBRP]bool{}
 	for _, d := range c.Declared {
 		decl[d] = true
 	}
-	v := 1
+	v, why := 1, ""
 	for _, s := range c.Sources {
-		if s.Form != "full" {
+		switch s.Form {
+		case "bare":
 			if v == 1 {
 				v = 0
 			}
-			continue
-		}
-		if !decl[DBRP{s.DB, s.RP}] {
-			return -1
+		case "norp":
+			if !decl[DBRP{s.DB, ""}] && why == "" {
+				v, why = -1, "omitted-rp"
+			}
+		default:
+			if !decl[DBRP{s.DB, s.RP}] {
+				return -1, "undeclared"
+			}
 		}
 	}
-	return v
+	return v, why
+}
+
+// declaredDB: the task declared some retention policy of the database.
+func (c Case) declaredDB(db string) bool {
+	for _, d := range c.Declared {
+		if d.DB == db {
+			return true
+		}
+	}
+	return false
 }
 
 func hasTopLevelOr(n *Node) bool { return n != nil && n.Op == "or" }
@@ -939,14 +961,28 @@ func run(c Case, cc *kit.Case) {
 	if c.Tail != "" {
 		cc.Label("tail")
 	}
-	verdict := c.sourcesVerdict()
-	switch verdict {
-	case 1:
+	verdict, why := c.sourcesVerdict()
+	switch {
+	case verdict == 1:
 		cc.Label("dbrp:declared")
-	case -1:
+	case verdict == -1 && why == "omitted-rp":
+		// the class that matters: nothing but the missing retention policy stands between the
+		// query and a database the task is allowed to read
+		all := true
+		for _, s := range c.Sources {
+			if s.Form == "norp" && !c.declaredDB(s.DB) {
+				all = false
+			}
+		}
+		if all {
+			cc.Label("dbrp:omitted-rp/database-declared-with-other-rp")
+		} else {
+			cc.Label("dbrp:omitted-rp/database-undeclared")
+		}
+	case verdict == -1:
 		cc.Label("dbrp:undeclared")
 	default:
-		cc.Label("dbrp:partially-qualified-source")
+		cc.Label("dbrp:unqualified-source")
 	}
 	if c.ReplayPath {
 		cc.Label("path:NewExecutingTask(replay service)")
@@ -989,24 +1025,28 @@ func run(c Case, cc *kit.Case) {
 
 	// ---- a task may only query what it declared
 	if verdict == -1 {
+		sigBase, reason := "dbrp/undeclared-accepted", "names a (db, rp) pair the task did not declare"
+		if why == "omitted-rp" {
+			sigBase, reason = "dbrp/omitted-rp-accepted", "omits the retention policy of a source: InfluxDB reads the database's default retention policy, which the task did not declare (it declared no pair with an empty retention policy)"
+		}
 		if qerr == nil {
-			cc.Fail("dbrp/undeclared-accepted/batch-queries", "declared %v, query %q: BatchQueries returned %d query lists and no error", c.Declared, userQ, len(bqs))
+			cc.Fail(sigBase+"/batch-queries", "declared %v, query %q %s: BatchQueries returned %d query lists and no error", c.Declared, userQ, reason, len(bqs))
 			return
 		}
 		if !c.ReplayPath {
 			if err := et.StartBatching(); err == nil {
-				cc.Fail("dbrp/undeclared-accepted/start-batching", "declared %v, query %q: StartBatching returned no error", c.Declared, userQ)
+				cc.Fail(sigBase+"/start-batching", "declared %v, query %q %s: StartBatching returned no error", c.Declared, userQ, reason)
 				return
 			}
 			if n := fake.count(); n != 0 {
-				cc.Fail("dbrp/undeclared-queried", "declared %v, query %q: %d queries reached InfluxDB", c.Declared, userQ, n)
+				cc.Fail("dbrp/undeclared-queried", "declared %v, query %q %s: %d queries reached InfluxDB", c.Declared, userQ, reason, n)
 			}
 		}
 		return
 	}
 	if qerr != nil {
 		if verdict == 0 {
-			cc.Label("dbrp:partially-qualified-rejected")
+			cc.Label("dbrp:unqualified-source-rejected")
 			return
 		}
 		cc.Fail("dbrp/declared-rejected", "declared %v, query %q: BatchQueries failed: %v", c.Declared, userQ, qerr)
@@ -1374,7 +1414,9 @@ var assumptions = []string{
 	"cron schedules are limited to a family whose occurrences are (t + zone offset) % M == R in unix seconds; the process's local zone is UTC or a generated fixed-offset zone (time.Local is set per case; no daylight-saving transitions)",
 	"GROUP BY is written in .groupBy() and fill in .fill() (pipeline/batch.go: the query text must not contain a GROUP BY clause); sub-queries are not generated (BatchQueries rejects them: their db/rp cannot be determined)",
 	"alignGroup(): the emitted group-by offset must make the interval boundaries coincide with the query's start time; with a user offset both 'aligned' and 'aligned plus the user offset' are accepted",
-	"a source that is not fully qualified (\"db\"..\"m\", m) may be accepted or rejected; a fully qualified source must be one of the declared (db, rp) pairs, compared exactly",
+	"a fully qualified source must be one of the declared (db, rp) pairs, compared exactly (client/API.md: dbrps is the 'list of database retention policy pairs the task is allowed to access')",
+	"a source that names the database but omits the retention policy (\"db\"..m) must be rejected by BatchQueries and StartBatching whatever other retention policies of db the task declared: InfluxDB answers it from the database's default retention policy, which Kapacitor does not know (the fake InfluxDB of the harness reports no retention policies, so the default is never a declared one); the generator never declares a pair with an empty retention policy (the kapacitor CLI refuses one: 'dbrp must specify retention policy'); the emitted sources are asserted to be the user's unchanged, so the check is the only guard",
+	"a source without a database (m) may be accepted or rejected (QueryNode.doQuery sends the statement without a database parameter, so no database is read)",
 	"every leaf of the generated WHERE tree has its own tag/field key, so every truth assignment of the leaves is realisable by a row",
 	"spans lie in the past (the 'query stop is after now' cut-off of BatchQueries is not exercised) and stop is not the zero time",
 }
